@@ -143,7 +143,7 @@ theorem MInv.update {f f' : Forest} {e nm : Nat} {N A S : List HTree} (h : MInv 
     · subst hk; rw [sec_setSec]; exact huniq
     · rw [sec_setSec_other k k' N A s' hk]; exact h.uniq k'
 
-theorem MInv.abs_update {f f' : Forest} {e nm : Nat} {N A S s' : List HTree} {k : MapKind}
+theorem MInv.abs_update {f' : Forest} {e nm : Nat} {N A S s' : List HTree} {k : MapKind}
     (h' : MInv f' e nm (setSecN k N s') (setSecA k A s') S) :
     abs k f' e = s'.map entryPair := by
   rw [h'.abs_eq k, sec_setSec]
